@@ -255,6 +255,7 @@ def run_validator(res, tier, seed):
                    {"label": "a", "parent": "g", "miner": 1, "dt": 100, "txs": [], "reward": {"delta": subsidy_ref(INTERVAL * k - below) - subsidy_ref(INTERVAL * k - below + 1)}, "mut": "C02:reward_of_previous_era"},
                    {"label": "a", "parent": "g", "miner": 1, "dt": 100, "txs": [], "reward": {"delta": 1, "shape": "split"}, "mut": "C02:reward+1_in_two_outputs"},
                    {"label": "a", "parent": "g", "miner": 1, "dt": 100, "txs": [], "reward": {"delta": 0, "shape": "times3"}, "mut": "C02:reward_three_times"},
+                   {"label": "a", "parent": "g", "miner": 1, "dt": 100, "txs": [], "reward": {"delta": 0, "shape": "wrap", "x": 10 ** 14}, "mut": "C02:reward_wraparound", "form": "bytes"},
                    {"label": "a", "parent": "g", "miner": 1, "dt": 100, "txs": []},
                    {"label": "b", "parent": "a", "miner": 2, "dt": 100, "txs": [], "reward": {"delta": 1}, "mut": "C02:reward+1"},
                    {"label": "b", "parent": "a", "miner": 2, "dt": 100, "txs": []}]
